@@ -320,6 +320,7 @@ class NadirLRMAltimetry(object):
 
         # attenuation at the top of a layer (below the interface) is the product of layer and interface attenuation
         subgate_backscatter_v *= subgate_attenuation_v[:-1] * subgate_attenuation_i[1:]
+        subgate_backscatter_v[z_top >= self.snowpack.z[-1]] = 0  # no volume scattering below the bottom of the snowpack
 
         # compute the interface backscatter. This can depend on theta
         # for each gate (PFS convolution).
